@@ -169,17 +169,18 @@ theorem count_rpcs : ∀ (es : List Item), SimpleRpcs es → ∀ (n : Nat) (firs
 theorem count_service : ∀ (e : Item), SimpleService e → ∀ (n s : Nat), 1 + need1 e ≤ (itemToks n e s).length
   | .block kw t l i name opts kids, h, n, s => by
     obtain ⟨hl, ho, hname, hkw, _, hk⟩ := h
-    subst hkw ho
-    simp only [itemToks_block_nil, need1_block_nil]
+    subst hkw
+    have hco := count_opts opts ho
+    simp only [itemToks, need1]
     split
     · rename_i he
-      have : kids = [] := by simpa using he
-      subst this
+      simp only [Bool.and_eq_true, List.isEmpty_iff] at he
+      obtain ⟨rfl, rfl⟩ := he
       rw [lineToks_empty n "service" name s isIdent_service hname]
-      simp [needAll]
+      simp [needAll, optChunks, optToks0_nil, splitOpt]
     · rw [lineToks_open n "service" name s isIdent_service hname, lineToks_close]
-      simp only [List.length_append, List.length_cons, List.length_nil]
-      have := count_rpcs kids hk (n + 1) true 0 0 (s + 1) false
+      simp only [List.length_append, List.length_cons, List.length_nil, sh_length]
+      have := count_rpcs kids hk (n + 1) true 0 0 (s + 1 + optSpan opts) (!opts.isEmpty)
       omega
   | .field _, h, _, _ => h.elim
   | .rpc _ _ _ _ _ _, h, _, _ => h.elim
